@@ -547,6 +547,12 @@ static void do_pad(vp_ctx_t* c, uint64_t reps)
             if (r == 0) { memset(m.p, 0xff, n + 8); }
             else if (r == 1) { memset(m.p, 0x00, n); memset(m.p + n, 0xff, 8); }
             else vp_rng_fill(&c->rng, m.p, n + 8);
+            if (r == 2 || r == 3) {
+                /* a reused buffer that was finalised before: the header already holds the target length and pad, the first pad
+                 * byte is already zero, later pad bytes are dirty (r == 3: length field holds the value of the previous size) */
+                bf_set(m.p, POS_LEN, 9, (n + pad) / 4 - (r == 3 ? 1 : 0)); bf_set(m.p, POS_PAD, 2, pad);
+                m.p[n] = 0; m.p[n + 1] = 0xEE; m.p[n + 2] = 0x07; m.p[n + 3] = 0x5A;
+            }
             memcpy(m.s, m.p, n + 8);
             uint8_t before[HDR]; memcpy(before, m.p, HDR);
             bf_set(m.s, POS_LEN, 9, (n + pad) / 4);
@@ -684,6 +690,33 @@ static void do_strarr_case(vp_ctx_t* c, uint64_t idx)
         o_s(c, "{\"strings\":"); o_u(c, n); o_s(c, ",\"counted\":"); o_u(c, cnt); o_s(c, ",\"total\":"); o_u(c, total); o_s(c, "}"); o_end(c);
     }
     check_obj(c, "strarr", "count", "objects", "-");
+    /* the count depends on the bytes only: re-pack the SAME buffer (same address, same total length) with the first two
+     * strings merged into one and count again - a result remembered from the previous call would be stale */
+    if (n >= 2 && (size_t)lens[0] + lens[1] + 2 <= 65535) {
+        uint8_t save[4]; memcpy(save, src, 2); memcpy(save + 2, src + 2 + lens[0], 2);
+        vssref_put_be(src, 2, (uint64_t)lens[0] + lens[1] + 2);
+        vp_call(c);
+        uint64_t cnt2 = Avtp_Vss_GetVSSDataStringArrayLength(arr);
+        c->evals++;
+        vp_tr_u64(c, cnt2);
+        if (cnt2 != n - 1 && vp_viol(c, "strarr", "count", "same-buffer-repacked", "stale-or-wrong-count", 0, 0)) {
+            o_s(c, "{\"strings_before\":"); o_u(c, n); o_s(c, ",\"strings_after_merge\":"); o_u(c, n - 1); o_s(c, ",\"counted\":"); o_u(c, cnt2); o_s(c, ",\"total\":"); o_u(c, total); o_s(c, "}"); o_end(c);
+        }
+        /* unpack the merged array into the first object, lengths only */
+        so[0].data_length = 0xABCD; so[0].data = 0;
+        vp_call(c);
+        Avtp_Vss_DeserializeStringArray(arr, sp, 1);
+        c->evals++;
+        if (so[0].data_length != (uint16_t)(lens[0] + lens[1] + 2) && vp_viol(c, "strarr", "deserialize", "same-buffer-repacked", "stale-or-wrong-length", 0, 0)) {
+            o_s(c, "{\"expected\":"); o_u(c, (uint64_t)lens[0] + lens[1] + 2); o_s(c, ",\"got\":"); o_u(c, so[0].data_length); o_s(c, "}"); o_end(c);
+        }
+        memcpy(src, save, 2);                              /* restore the original packing */
+        vp_arena_resync(&O);
+        vp_call(c);
+        uint64_t cnt3 = Avtp_Vss_GetVSSDataStringArrayLength(arr);
+        c->evals++;
+        if (cnt3 != n && vp_viol(c, "strarr", "count", "same-buffer-restored", "stale-or-wrong-count", 0, 0)) { o_s(c, "{\"strings\":"); o_u(c, n); o_s(c, ",\"counted\":"); o_u(c, cnt3); o_s(c, "}"); o_end(c); }
+    }
     /* requested counts smaller, equal and larger than the packed count */
     uint32_t reqs[6] = { 0, n ? n - 1 : 0, n, n + 1, n + 7, n + extra };
     for (int q = 0; q < 6; q++) {
